@@ -47,3 +47,9 @@ func VerifNewV2SessionlessTransport(send VerifSendFunc, timeout time.Duration, b
 func VerifParseCipherSuiteRecordData(joined []byte) ([]ipmi.CipherSuiteRecord, error) {
 	return parseCipherSuiteRecordData(joined)
 }
+
+// VerifSetBackOff replaces the retry back-off policy of a connection made by DialV2 (and of the sessions created on
+// it afterwards), so that checks driving the real UDP transport need not wait out the 500 ms exponential default.
+func VerifSetBackOff(t *V2SessionlessTransport, b backoff.BackOff) {
+	t.V2Sessionless.backoff = b
+}
